@@ -69,6 +69,21 @@ pub fn customs(name: &str, wasm: &[u8], out: &mut Vec<Json>) {
     }
 }
 
+/// C12 / C14 (API): a raw section with a `.debug*` name ADDED to module.customs is not written while DWARF generation is off, and it does not stop
+/// the sections stored after it from being written
+pub fn customs_added_debug_named(name: &str, wasm: &[u8], out: &mut Vec<Json>) {
+    let a = match amod::decode(wasm) { Ok(a) => a, Err(_) => return }; let want = raw_customs(&a);
+    for gd in [false, true] {
+        let r = catch(|| { let mut c = ModuleConfig::new(); c.generate_dwarf(gd); let mut m = c.parse(wasm).ok()?;
+            m.customs.add(walrus::RawCustomSection { name: ".debug_tool_private".into(), data: vec![1, 2, 3] }); m.customs.add(walrus::RawCustomSection { name: "verif-after-debug".into(), data: vec![9] });
+            let o1 = m.emit_wasm(); passes::gc::run(&mut m); let o2 = m.emit_wasm(); Some((o1, o2)) });
+        if let Some(Some((o1, o2))) = r { for (label, o) in [("emit", &o1), ("gc + second emit", &o2)] { if let Ok(b) = amod::decode(o) { let got = raw_customs(&b);
+            let mut expect = want.clone(); expect.push(("verif-after-debug".to_string(), vec![9]));
+            if got != expect { out.push(v("customs-not-preserved", "C12", format!("{}: after adding a raw `.debug_tool_private` section and then a raw `verif-after-debug` section through module.customs ({}; generate_dwarf({})): the other uninterpreted sections of the output are {:?}", name, label, gd, got.iter().map(|c| &c.0).collect::<Vec<_>>()), wasm, String::new(), format!("{:?}", expect.iter().map(|c| &c.0).collect::<Vec<_>>()))); }
+            if !gd && b.customs.iter().any(|c| c.0 == ".debug_tool_private") { out.push(v("dwarf-switch-wrong", "C14", format!("{}: a `.debug_tool_private` section held in module.customs is written to the output ({}) although DWARF generation is off", name, label), wasm, String::new(), String::new())); } } } }
+    }
+}
+
 /// C12 (API): removing ONE raw custom section by name takes out exactly the first section of that name, and asking for an absent name takes out nothing
 pub fn customs_remove_raw(name: &str, wasm: &[u8], out: &mut Vec<Json>) {
     let a = match amod::decode(wasm) { Ok(a) => a, Err(_) => return };
@@ -358,6 +373,14 @@ pub fn emit_maps_after_import_added(name: &str, wasm: &[u8], out: &mut Vec<Json>
         Some(None) => {}, None => out.push(v("walrus-panics-on-valid-module", "C02 C19", format!("{}: importing entities through the API then emitting panics", name), wasm, String::new(), String::new())) }
 }
 
+/// the function-name map of a decoded module's `name` section(s)
+pub fn function_names(a: &AMod) -> BTreeMap<u32, String> {
+    use wasmparser::{BinaryReader, Name, NameSectionReader};
+    let mut n = BTreeMap::new();
+    for c in a.customs.iter().filter(|c| c.0 == "name") { for s in NameSectionReader::new(BinaryReader::new(&c.1, 0, WasmFeatures::all())) { if let Ok(Name::Function(m)) = s { for x in m.into_iter().filter_map(|x| x.ok()) { n.insert(x.index, x.name.to_string()); } } } }
+    n
+}
+
 /// C13: debug names stay attached to the same entities.
 /// `synthetic`: the module was parsed with generate_synthetic_names_for_anonymous_items(true): every NON-EMPTY input name must still be attached to the
 /// corresponding entity; unnamed (or empty-named) entities may carry an invented name, so the converse checks are skipped
@@ -593,5 +616,5 @@ pub fn all_module_oracles(name: &str, wasm: &[u8], out: &mut Vec<Json>) {
     }
     // names again with synthetic names switched on: every real name of the input stays where it was
     { let mut scfg = ModuleConfig::new(); scfg.generate_producers_section(false).generate_synthetic_names_for_anonymous_items(true); if let Some(Ok(obs)) = catch(|| observe(wasm, &mut scfg)) { names(&format!("{} (synthetic names on)", name), wasm, &obs, true, out); } }
-    with_config_switches(out); lookups(name, wasm, out); customs(name, wasm, out); customs_remove_raw(name, wasm, out); customs_typed(name, wasm, out); determinism(name, wasm, out); config(name, wasm, out); gc(name, wasm, out); emit_maps_after_import_move(name, wasm, out); emit_maps_after_import_added(name, wasm, out);
+    with_config_switches(out); lookups(name, wasm, out); customs(name, wasm, out); customs_added_debug_named(name, wasm, out); customs_remove_raw(name, wasm, out); customs_typed(name, wasm, out); determinism(name, wasm, out); config(name, wasm, out); gc(name, wasm, out); emit_maps_after_import_move(name, wasm, out); emit_maps_after_import_added(name, wasm, out);
 }
